@@ -324,8 +324,8 @@ func init() {
 	clipConsts := []string{"edgeClip", "faceClip", "intersectsRect", "cellPadding", "ShapeIndex)", "boundaryApproxIntersects", "ShrinkToFit"}
 	only("C01", map[string][]string{"R-MIRROR": {"AdvanceWrap", "CellID.", "cellIDFromFaceIJWrap", "int-shift", "projection", "stToUV", "wrap:"}, "R-CONST": {"Cell).ContainsPoint", "maxXYZtoUVError"}, "R-RANGE": {"CellID)", "CellUnion", "cellunion"}})
 	only("C02", map[string][]string{"R-CONST": predicateConsts, "R-CONSTREL": {"r3.MaxPrec", "stableSign", "maxDeterminantError"}})
-	only("C03", map[string][]string{"R-CONST": {"EdgeCrosser", "intersection", "projection"}, "R-CONSTREL": {"stableSign", "maxDeterminantError", "r3.MaxPrec"}, "R-STAGES": {"RobustSign", "expensiveSign", "exactSign", "bound:", "symbolicallyPerturbedSign", "stage-callers"}, "R-GUARD": {"VertexCrossing"}})
-	only("C05", map[string][]string{"R-MIRROR": {"intersectsLatEdge"}, "R-SPECIAL": {"ordered-interval"}, "R-SQRT": {"intersectsLatEdge"}, "R-CONST": clipConsts, "R-PADDING": {"boundaryApproxIntersects", "normalizeCovering", "replaceCellsWithAncestor"}, "R-CYCLE": {"coverer", "CellUnionBound"}, "R-PARITY": {"iteratorContainsPoint", "ReferencePoint"}, "R-RANGE": {"ShapeIndexIterator"}, "R-PARTITION": {"Polygon.Invert"}, "R-ACCUM": {"vertex-only-bound"}})
+	only("C03", map[string][]string{"R-CONST": {"EdgeCrosser", "intersection", "projection"}, "R-CONSTREL": {"stableSign", "maxDeterminantError", "r3.MaxPrec"}, "R-STAGES": {"stableSign:declines", "CrossingSign:delegates", "RobustSign", "expensiveSign", "exactSign", "bound:", "symbolicallyPerturbedSign", "stage-callers"}, "R-GUARD": {"VertexCrossing"}})
+	only("C05", map[string][]string{"R-MIRROR": {"intersectsLatEdge"}, "R-SPECIAL": {"ordered-interval", "closed-predicates"}, "R-SQRT": {"intersectsLatEdge"}, "R-CONST": clipConsts, "R-PADDING": {"boundaryApproxIntersects", "normalizeCovering", "replaceCellsWithAncestor"}, "R-CYCLE": {"coverer", "CellUnionBound"}, "R-PARITY": {"iteratorContainsPoint", "ReferencePoint"}, "R-RANGE": {"ShapeIndexIterator"}, "R-PARTITION": {"Polygon.Invert"}, "R-ACCUM": {"vertex-only-bound"}})
 	only("C06", map[string][]string{"R-CONST": clipConsts})
 	only("C07", map[string][]string{"R-ROLES": {"hasCrossing", "(*s2.Loop).", "initOneLoop", "WedgeContains"}, "R-PARITY": {"loopCrosser"}, "R-INIT": {"Invert"}, "R-GUARD": {"findVertex", "getCells"}, "R-NAMEPAIR": {"wedge:", "Loop", "Relation"}})
 	only("C12", map[string][]string{"R-ERRMODEL": {"chord-from-length2-clamped"}, "R-SQRT": {"Cell", "edgeDistance", "uvToST", "expandEndpoint"}})
